@@ -14,4 +14,4 @@ for r in bad:
     seen.setdefault(g, []).append(r)
 for g, rs in seen.items():
     r = min(rs, key=lambda r: len(json.dumps(r["case"]["args"])))
-    print(g, len(rs)); print("   case", r["case"]["args"], r["case"].get("call")); print("   impl ", r["impl"]); print("   model", r["model"]); print("   oracle", r["oracle"])
+    print(g, len(rs)); print("   case", r["case"]["args"], r["case"].get("call")); print("   impl ", str(r["impl"])[:400]); print("   model", str(r["model"])[:400]); print("   oracle", str(r["oracle"])[:400])
